@@ -17,7 +17,8 @@ const (
 	eOpt      // "pj": @Tj // {optional: true}
 	eArr      // "pj": [ @Tj ]
 	eOrLeaf   // "pj": @Tj | @leaf      (terminating alternative)
-	eOrLoop   // "pj": @Tj | @Tj        (all members loop)
+	eOrLoop   // "pj": @Tj | @loopj     (all members loop)
+	eReqFalse // "pj": @Tj // {optional: false}   (explicitly required)
 	nEdgeKinds
 )
 
@@ -46,6 +47,9 @@ func c09TypeText(i, n int, edge [][]int) string {
 			p += c09Name(j) + " | @leaf"
 		case eOrLoop:
 			p += c09Name(j) + " | @loop" + string([]byte{byte('0' + j)})
+		case eReqFalse:
+			p += c09Name(j)
+			ann = " // {optional: false}"
 		}
 		props = append(props, p)
 		anns = append(anns, ann)
@@ -99,7 +103,7 @@ func ZZC09Graph() {
 		for i := 0; i < n; i++ {
 			ok := true
 			for j := 0; j < n; j++ {
-				if (edge[i][j] == eReq || edge[i][j] == eOrLoop) && !inh[j] {
+				if (edge[i][j] == eReq || edge[i][j] == eReqFalse || edge[i][j] == eOrLoop) && !inh[j] {
 					ok = false
 				}
 			}
@@ -113,7 +117,7 @@ func ZZC09Graph() {
 	multi := "single-type-cycle"
 	for i := 0; i < n; i++ {
 		for j := 0; j < n; j++ {
-			if i != j && (edge[i][j] == eReq || edge[i][j] == eOrLoop) {
+			if i != j && (edge[i][j] == eReq || edge[i][j] == eReqFalse || edge[i][j] == eOrLoop) {
 				multi = "cycle-through-several-types"
 			}
 			if edge[i][j] == eOrLoop {
@@ -174,6 +178,8 @@ func ZZC09Missing() {
 		{"{ // {allOf: \"@a\"}\n  \"k\": 1\n}", []string{"@a"}},
 		{"{ // {additionalProperties: \"@b\"}\n  \"k\": 1\n}", []string{"@b"}},
 		{"{\n  @b: 1\n}", []string{"@b"}},
+		{"{\n  @b: @a\n}", []string{"@b", "@a"}},
+		{"{\n  @b: [\n    @a\n  ],\n  \"k\": 1\n}", []string{"@b", "@a"}},
 		{"{\n  \"x\": @a | @b, // {optional: true}\n  \"y\": { // {allOf: \"@a\"}\n    \"q\": @b\n  }\n}", []string{"@a", "@b"}},
 	}
 	f := forms[v.Choose(0, len(forms)-1)]
@@ -225,7 +231,7 @@ func ZZC09Missing() {
 				v.Assert(de.Code() == errors.ErrTypeNotFound || de.Code() == errors.ErrUnknownType, "C09/missing-type-wrong-code")
 			}
 		}
-	} else if f.text != "{\n  @b: 1\n}" || missing != 1 {
+	} else {
 		v.Reach("C09/complete")
 		v.Assert(cerr == nil, "C09/complete-graph-rejected")
 	}
